@@ -1,9 +1,11 @@
 """events_once (thread-safe one-shot event): scenarios, endpoint wrappers, monitors (C05, C06).
 
-The protocol functions of core/sync.rs are taken from the MIR dump; the four endpoint wrappers of
-sync_sender.rs / sync_receiver.rs (which only decide whether `release_event` is called from the
-protocol function's result) are modelled here and pinned by a structural fingerprint of their MIR:
-if a wrapper changes, the check stops with "no verdict" instead of silently using a stale model."""
+Both the protocol functions of core/sync.rs and the six endpoint wrappers of sync_sender.rs /
+sync_receiver.rs (send, drop; poll, is_ready, into_value, drop) are interpreted from the MIR dump.
+The wrappers keep the endpoint's event reference (`E` / `Option<E>`) as per-operation object state
+that is carried from one operation of a thread program to the next; `release_event` is a visible
+step. Nothing of events_once is modelled by hand (the structural fingerprint code below is still
+used for the awaiter-set contract of the reset events)."""
 import hashlib
 import json
 import os
@@ -30,11 +32,91 @@ def load(mir_path, repo):
             raise A.Unsupported("function Event::%s not found exactly once in the MIR dump (%d)" % (name, len(c)))
         return c[0]
 
+    def find_in(module, name):
+        c = [f for k, f in funcs.items() if re.search(r"^" + module + r"::<impl at [^>]*" + module + r"\.rs:\d+:\d+: \d+:\d+>::" + re.escape(name) + "$", k)]
+        if len(c) != 1:
+            raise A.Unsupported("function %s::%s not found exactly once in the MIR dump (%d)" % (module, name, len(c)))
+        return c[0]
+
     def resolve(callee):
         m = re.match(r"^core::sync::Event::<T>::(\w+)$", callee)
-        return find(m.group(1)) if m else None
+        if m:
+            return find(m.group(1))
+        m = re.match(r"^sync_(receiver|sender)::(?:Receiver|Sender)Core::<E, T>::(\w+)$", callee)
+        if m:
+            return find_in("sync_" + m.group(1), m.group(2))
+        return None
 
-    cfg = A.Config(funcs, consts, resolve)
+    def extra_visible(callee, args, fr, vals):
+        if re.search(r"<E as (?:core::)?sync_refs::EventRef<T>>::release_event$", callee):
+            return dict(kind="RELEASE")
+        return None
+
+    def is_enum(v, *names):
+        return isinstance(v, tuple) and len(v) >= 2 and v[0] == "ENUM" and (not names or v[1] in names)
+
+    def extra_call(interp, callee, vals, fr, dst):
+        """Pure std callees the endpoint wrappers use (Option / Context / Result plumbing)."""
+        def out(v):
+            if dst:
+                fr.env[dst] = v
+            return True
+        if re.match(r"^<E as Deref>::deref$", callee):
+            return out("EVENTCELL")          # &UnsafeCell<Event<T>>: the one shared event of the scenario
+        if re.match(r"^Option::<E>::take$", callee):
+            r = vals[0]
+            if not (isinstance(r, tuple) and r and r[0] == "FIELDREF"):
+                raise A.Unsupported("Option::take on %r" % (r,))
+            key = "@%s.%s" % (r[1], r[2])
+            v = interp.obj_field(fr, r[1], r[2])
+            fr.env[key] = ("ENUM", "None")
+            return out(v)
+        if re.match(r"^Option::<E>::as_ref$", callee):
+            v = interp.deref_alias(fr, vals[0])
+            if not is_enum(v, "Some", "None"):
+                raise A.Unsupported("Option::as_ref on %r" % (v,))
+            return out(v)
+        if re.match(r"^Option::<.*>::(expect|unwrap)$", callee) or re.match(r"^Result::<.*>::(expect|unwrap)$", callee):
+            v = interp.deref_alias(fr, vals[0])
+            if is_enum(v, "Some", "Ok"):
+                return out(v[2] if len(v) > 2 else None)
+            raise A.Unsupported("expect/unwrap on %r in %s (panic path or untracked value)" % (v, fr.func.short()))
+        if re.match(r"^Option::<.*>::(is_some|is_none)$", callee):
+            v = interp.deref_alias(fr, vals[0])
+            if not is_enum(v, "Some", "None"):
+                raise A.Unsupported("%s on %r" % (callee, v))
+            return out(int((v[1] == "Some") == callee.endswith("is_some")))
+        if re.match(r"^Context::<'_>::waker$", callee):
+            v = interp.deref_alias(fr, vals[0])
+            if not (isinstance(v, tuple) and v and v[0] == "CONTEXT"):
+                raise A.Unsupported("Context::waker on %r" % (v,))
+            return out(("WAKERREF", v[1]))
+        if re.match(r"^<Result<\(\), (?:core::)?disconnected::Disconnected> as PartialEq>::eq$", callee):
+            a, b = interp.deref_alias(fr, vals[0]), interp.deref_alias(fr, vals[1])
+            if not (is_enum(a, "Ok", "Err") and is_enum(b, "Ok", "Err")):
+                raise A.Unsupported("Result::eq on %r, %r" % (a, b))
+            return out(int(a[1] == b[1]))
+        m = re.match(r"^Option::<.*>::map_or_else::<.*\{closure@([^}]*)\}, fn\(.*$", callee)
+        if m:
+            v = interp.deref_alias(fr, vals[0])
+            if is_enum(v, "None"):
+                cl = [f for k, f in funcs.items() if ("{closure@%s}" % m.group(1)) in f.sig.split(") -> ")[0] and "::{closure#" in k]
+                if len(cl) != 1 or list(cl[0].blocks) != ["bb0"]:
+                    raise A.Unsupported("map_or_else default closure %s not a single straight block" % m.group(1))
+                tmp = A.Frame(cl[0], {})
+                for (text, _) in cl[0].blocks["bb0"].stmts:
+                    interp.stmt(tmp, text)
+                return out(tmp.env.get("_0"))
+            if is_enum(v, "Some") and re.search(r"Poll::<.*>::Ready$", callee.split("fn(")[0]) is None:
+                # the mapping function is the third operand; it is accepted only if it is the Poll::Ready constructor
+                pass
+            if is_enum(v, "Some"):
+                return out(("ENUM", "Ready", v[2]))
+            raise A.Unsupported("map_or_else on %r" % (v,))
+        return False
+
+    cfg = A.Config(funcs, consts, resolve, extra_visible=extra_visible, extra_call=extra_call, extra_pure=("drop_in_place::<E>",))
+    cfg.find_in = find_in
     return funcs, consts, cfg, find
 
 
@@ -126,98 +208,106 @@ class ThreadBuilder:
             self.nodes[remap[n.id]]["succ"] = {k: conv(v) for k, v in n.succ.items()}
         return conv(entry) if not isinstance(entry, int) else remap[entry]
 
-    # --- the wrappers (sync_sender.rs / sync_receiver.rs) ---
+    # --- the endpoint wrappers (sync_sender.rs / sync_receiver.rs), interpreted from their MIR ---
+    # The endpoint object (SenderCore / ReceiverCore) is ("OBJ", name); its field 0 (the event
+    # reference, `E` for the sender and `Option<E>` for the receiver) lives in the entry frame of each
+    # operation under "@name.0" and is carried from one operation to the next.
+    def wrapper_automaton(self, module, fname, args, on_return):
+        fn = self.cfg.find_in(module, fname)
+        saved = self.find
+        self.find = lambda _n: fn
+        try:
+            return self.func_automaton(fname, args, on_return)
+        finally:
+            self.find = saved
+
+    @staticmethod
+    def split_ret(v):
+        if isinstance(v, tuple) and v and v[0] == "WITHOBJ":
+            return v[1], dict(v[2])
+        return v, {}
+
     def sender(self, op):
         done = dict(sender_done=True)
+        obj = {"_1": ("OBJ", "send"), "@send.0": "EREF"}
 
         def ret(v):
-            if v == ("ENUM", "Err", None) or (isinstance(v, tuple) and v[:2] == ("ENUM", "Err")):
-                return self.new_node(dict(kind="RELEASE", ghost=done, line=("sync_sender.rs", 0)), {None: "END"})
-            if isinstance(v, tuple) and v[:2] == ("ENUM", "Ok"):
-                return self.new_node(dict(kind="NOP", ghost=done), {None: "END"})
-            raise A.Unsupported("unexpected sender result %r" % (v,))
+            return self.new_node(dict(kind="NOP", ghost=done), {None: "END"})
         if op == "send":
-            return self.func_automaton("set", {"_2": A.VALUE}, ret)
-        return self.func_automaton("sender_dropped_without_set", {}, ret)
+            return self.wrapper_automaton("sync_sender", "send", dict(obj, _2=A.VALUE), ret)
+        return self.wrapper_automaton("sync_sender", "drop", obj, ret)
 
     def receiver(self, ops):
         """ops: list of 'poll1' | 'poll2' | 'poll3' | 'is_ready' | 'into_value' | 'drop'; after the
         list the receiver stays alive (pending) unless an op consumed it."""
-        return self.recv_from(ops, 0)
+        return self.recv_from(ops, 0, A.freeze({"@recv.0": ("ENUM", "Some", "EREF")}))
 
-    def recv_from(self, ops, i):
+    def recv_from(self, ops, i, objs):
         if i >= len(ops):
             return "END"
         saved = self.cur_op
         self.cur_op = i
         try:
-            return self._recv_from(ops, i)
+            return self._recv_from(ops, i, objs)
         finally:
             self.cur_op = saved
 
-    def _recv_from(self, ops, i):
+    def _recv_from(self, ops, i, objs):
         op = ops[i]
-        nxt_cache = {}
-
-        def nxt():
-            if "n" not in nxt_cache:
-                nxt_cache["n"] = self.recv_from(ops, i + 1)
-            return nxt_cache["n"]
+        state = dict(objs)
+        if state.get("@recv.0") != ("ENUM", "Some", "EREF"):
+            raise A.Unsupported("receiver operation %s on a consumed receiver (state %r)" % (op, state))
+        args = dict(state, _1=("OBJ", "recv"))
         gone = dict(recv_gone=True, last_pending=0)
+
+        def after(ghost, st):
+            """ghost stamp of the finished operation, then the next operation (or the end)"""
+            consumed = st.get("@recv.0") == ("ENUM", "None") or not st
+            g = dict(ghost)
+            if consumed:
+                g.update(gone)
+            tgt = "END" if consumed else self.recv_from(ops, i + 1, A.freeze(st))
+            return self.new_node(dict(kind="NOP", ghost=g), {None: tgt})
         if op.startswith("poll"):
             w = int(op[4:])
 
             def ret(v):
-                if v == ("ENUM", "None"):
-                    return self.new_node(dict(kind="NOP", ghost=dict(last_pending=w)), {None: nxt()})
-                if isinstance(v, tuple) and v[:2] == ("ENUM", "Some"):
+                v, st = self.split_ret(v)
+                if v == ("ENUM", "Pending"):
+                    return after(dict(last_pending=w), st)
+                if isinstance(v, tuple) and v[:2] == ("ENUM", "Ready"):
                     inner = v[2]
                     if inner == ("ENUM", "Ok", A.VALUE):
-                        g = dict(gone, outcome=OUT_VALUE, delivered=1)
-                    elif isinstance(inner, tuple) and inner[:2] == ("ENUM", "Err"):
-                        g = dict(gone, outcome=OUT_DISCONNECTED)
-                    else:
-                        raise A.Unsupported("unexpected poll result %r" % (v,))
-                    return self.new_node(dict(kind="RELEASE", ghost=g, line=("sync_receiver.rs", 0)), {None: "END"})
+                        return after(dict(outcome=OUT_VALUE, delivered=1), st)
+                    if isinstance(inner, tuple) and inner[:2] == ("ENUM", "Err"):
+                        return after(dict(outcome=OUT_DISCONNECTED), st)
                 raise A.Unsupported("unexpected poll result %r" % (v,))
-            # a new poll supersedes the previous pending registration
-            return self.func_automaton("poll", {"_2": ("WAKERREF", w)}, ret)
+            return self.wrapper_automaton("sync_receiver", "poll", dict(args, _2=("CONTEXT", w)), ret)
         if op == "is_ready":
             def ret(v):
+                v, st = self.split_ret(v)
                 if v not in (0, 1):
-                    raise A.Unsupported("unexpected is_set result %r" % (v,))
-                return nxt()
-            return self.func_automaton("is_set", {}, ret)
-        if op in ("drop", "into_value"):
+                    raise A.Unsupported("unexpected is_ready result %r" % (v,))
+                return after({}, st)
+            return self.wrapper_automaton("sync_receiver", "is_ready", args, ret)
+        if op == "drop":
             def ret(v):
-                if v == ("ENUM", "Ok", ("ENUM", "None")):
-                    if op == "into_value":
-                        return self.new_node(dict(kind="NOP", ghost=dict(bad=1)), {None: "END"})   # unreachable!() arm
-                    return self.new_node(dict(kind="NOP", ghost=gone), {None: "END"})
-                if v == ("ENUM", "Ok", ("ENUM", "Some", A.VALUE)):
-                    g = dict(gone, outcome=OUT_VALUE, delivered=1) if op == "into_value" else dict(gone, vdrops=1)
-                    return self.new_node(dict(kind="RELEASE", ghost=g, line=("sync_receiver.rs", 0)), {None: "END"})
-                if isinstance(v, tuple) and v[:2] == ("ENUM", "Err"):
-                    g = dict(gone, outcome=OUT_DISCONNECTED) if op == "into_value" else dict(gone)
-                    return self.new_node(dict(kind="RELEASE", ghost=g, line=("sync_receiver.rs", 0)), {None: "END"})
-                raise A.Unsupported("unexpected final_poll result %r" % (v,))
-            fp = lambda: self.func_automaton("final_poll", {}, ret)
-            if op == "drop":
-                return fp()
-            # into_value: Acquire load, pending unless SET / DISCONNECTED
-            c = self.cfg.consts
-            succ = {}
-            fin = None
-            for val in A.STATE_DOMAIN:
-                if val in (c["EVENT_BOUND"], c["EVENT_AWAITING"], c["EVENT_SIGNALING"]):
-                    succ[val] = nxt()
-                elif val in (c["EVENT_SET"], c["EVENT_DISCONNECTED"]):
-                    if fin is None:
-                        fin = fp()
-                    succ[val] = fin
-                else:
-                    succ[val] = ("PANIC", "unreachable state on into_value")
-            return self.new_node(dict(kind="ATOMIC", op="load", ints=[], ords=["Acquire"], loc="state", line=("sync_receiver.rs", 0)), succ)
+                v, st = self.split_ret(v)
+                if st.get("@recv.0") != ("ENUM", "None"):
+                    raise A.Unsupported("receiver drop left the event reference in place: %r" % (st,))
+                return after({}, st)
+            return self.wrapper_automaton("sync_receiver", "drop", args, ret)
+        if op == "into_value":
+            def ret(v):
+                v, st = self.split_ret(v)
+                if v == ("ENUM", "Ok", A.VALUE):
+                    return after(dict(outcome=OUT_VALUE, delivered=1), st)
+                if v == ("ENUM", "Err", ("ENUM", "Pending", ("OBJ", "recv"))):
+                    return after({}, st)            # receiver handed back, still usable
+                if v == ("ENUM", "Err", None):      # IntoValueError::Disconnected
+                    return after(dict(outcome=OUT_DISCONNECTED), st)
+                raise A.Unsupported("unexpected into_value result %r" % (v,))
+            return self.wrapper_automaton("sync_receiver", "into_value", args, ret)
         raise ValueError(op)
 
 
